@@ -208,7 +208,7 @@ def c_pdv(v):
     c, d = v
     if isinstance(d, tuple):          # ('pat', ctl-prefix bytes, seed, len): generated inside Coq
         return '{| pdv_ctx := %d; pdv_data := %s ++ pat %d %d |}' % (c, cbytes(d[1]), d[2], d[3])
-    return '{| pdv_ctx := %d; pdv_data := %s |}' % (c, cbytes(d))
+    return '{| pdv_ctx := %d; pdv_data := %s |}' % (c, cb(d))
 
 
 def c_pdu(p):
@@ -239,8 +239,24 @@ def c_result_pdu(r):
     return '(Err %s)' % c_exn(r[1])
 
 
+# the payloads generated inside Coq (`pat seed len`) of the case being printed: where the observed bytes contain one of
+# them, the term says `pat seed len` instead of spelling the bytes out (the term denotes the same byte string: a
+# megabyte literal costs minutes to parse, and every observed byte outside the payloads is still spelled out)
+PATS = []
+
+
+def cb(b):
+    b = bytes(b)
+    for seed, n, pb in PATS:
+        if n >= 2048:
+            i = b.find(pb)
+            if i >= 0:
+                return '(%s ++ pat %d %d ++ %s)' % (cb(b[:i]), seed, n, cb(b[i + n:]))
+    return cbytes(b)
+
+
 def c_obytes(b):
-    return 'None' if b is None else '(Some %s)' % cbytes(b)
+    return 'None' if b is None else '(Some %s)' % cb(b)
 
 
 # ---------------------------------------------------------------- generators (structured, valid)
